@@ -8,6 +8,10 @@
   `StyledPixelsIterator` walks it point by point and skips scanlines without a colour. Overlapping
   scanlines (stroke over fill) come in the same order on both paths, so "last write wins" decides
   alike.
+  The real `ScanlineIterator` is NOT fused and the model keeps that (`TriScanlines.next` returns the
+  successor state with `None` too); `draw_styled` stops at the first `None`, `StyledPixelsIterator::new`
+  forgives one. The two agree because a first `None` is followed by `None`s only (`TriFirstNoneFinal`,
+  proved in EG/Lemmas/TriTopRow.lean).
   * `triLines`: the complete scanline run (up to the first `None` of the non-fused iterator) exists,
     is what the `for` loop of `draw_styled` sees (`toList`'s fuel is never used up), non-empty lines;
   * `triPix_run`: the pixel iterator's complete run is the concatenation of the coloured scanlines'
@@ -23,14 +27,14 @@ open EG.Tgt EG.Joins
 /-! ### the model drains are `listFuel` -/
 
 theorem triScanlines_toListFuel_eq : ∀ (fuel : Nat) (it : TriScanlines),
-    it.toListFuel fuel = listFuel TriScanlines.next fuel it := by
+    it.toListFuel fuel = listFuel TriScanlines.nextLoop fuel it := by
   intro fuel
   induction fuel with
   | zero => intro it; rfl
   | succ n ih =>
     intro it
     rw [TriScanlines.toListFuel, listFuel]
-    cases it.next with
+    cases it.nextLoop with
     | none => rfl
     | some r =>
       cases r with
@@ -38,7 +42,7 @@ theorem triScanlines_toListFuel_eq : ∀ (fuel : Nat) (it : TriScanlines),
       | some p =>
         obtain ⟨s, it'⟩ := p
         simp only [Option.bind_eq_bind, Option.bind_some, ih it']
-        cases listFuel TriScanlines.next n it' <;> rfl
+        cases listFuel TriScanlines.nextLoop n it' <;> rfl
 
 theorem triPixels_toListFuel_eq : ∀ (fuel : Nat) (it : TriPixels),
     it.toListFuel fuel = listFuel TriPixels.next fuel it := by
@@ -108,8 +112,9 @@ theorem triIntersections_next_nonempty {it it' : TriIntersections} {x : Scanline
 
 /-- `ScanlineIterator::next` only returns non-empty scanlines. -/
 theorem triScanlines_next_nonempty {it it' : TriScanlines} {x : Scanline × PointType}
-    (h : it.next = some (some (x, it'))) : x.1.isEmpty = false := by
-  unfold TriScanlines.next at h
+    (h : it.nextLoop = some (some (x, it'))) : x.1.isEmpty = false := by
+  rw [TriScanlines.nextLoop_eq_def] at h
+  unfold TriScanlines.nextLoopDef at h
   cases h1 : it.intersections.next with
   | some p =>
     obtain ⟨r, ints⟩ := p
@@ -137,7 +142,7 @@ theorem triScanlines_next_nonempty {it it' : TriScanlines} {x : Scanline × Poin
     · cases h
 
 theorem triScanlines_next_mu {it it' : TriScanlines} {x : Scanline × PointType}
-    (h : it.next = some (some (x, it'))) : TriScanlines.mu it' < TriScanlines.mu it := by
+    (h : it.nextLoop = some (some (x, it'))) : TriScanlines.mu it' < TriScanlines.mu it := by
   obtain ⟨r, hr, hmu⟩ := TriScanlines.next_spec it
   rw [h] at hr
   simp only [Option.some.injEq] at hr
@@ -145,7 +150,7 @@ theorem triScanlines_next_mu {it it' : TriScanlines} {x : Scanline × PointType}
 
 /-- A run of the scanline iterator has at most `mu` (<= three per remaining row plus three) items. -/
 theorem triRun_length {it : TriScanlines} {L : List (Scanline × PointType)}
-    (h : Run TriScanlines.next it L) : L.length ≤ TriScanlines.mu it := by
+    (h : Run TriScanlines.nextLoop it L) : L.length ≤ TriScanlines.mu it := by
   induction h with
   | done _ => exact Nat.zero_le _
   | step h1 _ ih =>
@@ -162,14 +167,14 @@ theorem triMu_le (it : TriScanlines) :
 /-- **The complete scanline run of a triangle's `ScanlineIterator`**: it exists, it is what
 `toList` (the `for` loop of `draw_styled`) returns, and every scanline in it is non-empty. -/
 theorem triLines (it : TriScanlines) :
-    ∃ L, it.toList = some L ∧ Run TriScanlines.next it L ∧ ∀ x ∈ L, x.1.isEmpty = false := by
+    ∃ L, it.toList = some L ∧ Run TriScanlines.nextLoop it L ∧ ∀ x ∈ L, x.1.isEmpty = false := by
   obtain ⟨L, hL⟩ := TriScanlines.toListFuel_total (3 * ((it.rowsEnd - it.rowsStart).toNat + 1) + 1) it
-  have hL' : listFuel TriScanlines.next (3 * ((it.rowsEnd - it.rowsStart).toNat + 1) + 1) it = some L := by
+  have hL' : listFuel TriScanlines.nextLoop (3 * ((it.rowsEnd - it.rowsStart).toNat + 1) + 1) it = some L := by
     rw [← triScanlines_toListFuel_eq]; exact hL
   have hlen : L.length ≤ TriScanlines.mu it :=
     listFuel_length_le_mu (fun _ => True) TriScanlines.mu
       (fun s a s' _ hn => ⟨trivial, triScanlines_next_mu hn⟩) _ it L trivial hL'
-  have hrun : Run TriScanlines.next it L :=
+  have hrun : Run TriScanlines.nextLoop it L :=
     listFuel_run _ it L hL' (by have := triMu_le it; omega)
   exact ⟨L, hL, hrun, Run.forall (fun x => x.1.isEmpty = false)
     (fun s a s' hn => triScanlines_next_nonempty hn) hrun⟩
@@ -205,7 +210,7 @@ theorem triPixels_nextFuel_succ (fuel : Nat) (it : TriPixels) :
       match triHit it with
       | some r => some (some r)
       | none =>
-        match it.linesIter.next with
+        match it.linesIter.nextLoop with
         | none => none
         | some none => some none
         | some (some ((nextLine, nextType), li)) =>
@@ -217,7 +222,7 @@ theorem triPixels_nextFuel_succ (fuel : Nat) (it : TriPixels) :
   cases it.currentColor with
   | none =>
     dsimp only
-    cases it.linesIter.next with
+    cases it.linesIter.nextLoop with
     | none => rfl
     | some r =>
       cases r with
@@ -231,7 +236,7 @@ theorem triPixels_nextFuel_succ (fuel : Nat) (it : TriPixels) :
     | some q => rfl
     | none =>
       dsimp only
-      cases it.linesIter.next with
+      cases it.linesIter.nextLoop with
       | none => rfl
       | some r =>
         cases r with
@@ -242,7 +247,7 @@ theorem triPixels_nextFuel_succ (fuel : Nat) (it : TriPixels) :
 
 /-- With enough fuel for the remaining scanlines the `loop` of `next` does not depend on the fuel. -/
 theorem triPixels_nextFuel_indep {li : TriScanlines} {L : List (Scanline × PointType)}
-    (h : Run TriScanlines.next li L) :
+    (h : Run TriScanlines.nextLoop li L) :
     ∀ (f1 f2 : Nat) (cur : Scanline) (col fc sc : Option Nat), L.length < f1 → L.length < f2 →
       TriPixels.nextFuel f1 ⟨li, cur, col, fc, sc⟩ = TriPixels.nextFuel f2 ⟨li, cur, col, fc, sc⟩ := by
   induction h with
@@ -318,7 +323,7 @@ theorem triPix_drain (li : TriScanlines) (fc sc : Option Nat) (R : Writes)
 /-- **The run of the pixel iterator** whose scanline iterator runs `L` and whose current line is
 `cur` with colour `col`: the pixels of `cur`, then those of every coloured scanline of `L`. -/
 theorem triPix_run (fc sc : Option Nat) {li : TriScanlines} {L : List (Scanline × PointType)}
-    (h : Run TriScanlines.next li L) (cur : Scanline) (col : Option Nat) :
+    (h : Run TriScanlines.nextLoop li L) (cur : Scanline) (col : Option Nat) :
     Run TriPixels.next ⟨li, cur, col, fc, sc⟩ (linePixels cur col ++ L.flatMap (typedPixels fc sc)) := by
   induction h generalizing cur col with
   | done h1 =>
@@ -360,24 +365,35 @@ theorem colorOf_eq_kindColor (style : TriStyle) (k : PointType) :
     style.colorOf k = kindColor style.fillColor style.effectiveStrokeColor k := by
   cases k <;> rfl
 
+/-- **After a first `None` only `None`s**: if the FIRST call of `next()` on the scanline iterator of a
+styled triangle returns `None`, the call after it (on the iterator as the first call left it — it is
+not fused) returns `None` too. This is what makes `StyledPixelsIterator::new`, which forgives one
+`None`, agree with the `for` loop of `draw_styled`, which stops at it. Proved in
+EG/Lemmas/TriTopRow.lean: the top row of the styled bounding box always has a scanline unless no row
+has one (`triFirstNoneFinal_of_i32` and the guard-free special cases). -/
+def TriFirstNoneFinal (t : Tri) (style : TriStyle) : Prop :=
+  ∀ li li', triScanlines t style = some li → li.next = some (none, li') → li'.nextLoop = some none
+
 /-- The pixel iterator `StyledPixelsIterator::new` builds runs the pixels of all coloured scanlines. -/
-theorem triPix_new (t : Tri) (style : TriStyle) (li : TriScanlines) (hli : triScanlines t style = some li)
-    (L : List (Scanline × PointType)) (hL : Run TriScanlines.next li L) :
+theorem triPix_new (t : Tri) (style : TriStyle) (hf : TriFirstNoneFinal t style) (li : TriScanlines)
+    (hli : triScanlines t style = some li)
+    (L : List (Scanline × PointType)) (hL : Run TriScanlines.nextLoop li L) :
     ∃ it, TriPixels.new t style = some it ∧
       Run TriPixels.next it (L.flatMap (typedPixels style.fillColor style.effectiveStrokeColor)) := by
   unfold TriPixels.new
   simp only [hli, Option.bind_eq_bind, Option.bind_some]
   cases hL with
   | done h1 =>
-    rw [h1]
+    obtain ⟨li', hn⟩ := (TriScanlines.next_none_iff li).mpr h1
+    rw [hn]
     refine ⟨_, rfl, ?_⟩
-    have := triPix_run style.fillColor style.effectiveStrokeColor (Run.done h1) (Scanline.newEmpty 0)
-      (style.colorOf .stroke)
+    have := triPix_run style.fillColor style.effectiveStrokeColor (Run.done (hf li li' hli hn))
+      (Scanline.newEmpty 0) (style.colorOf .stroke)
     rw [linePixels_newEmpty] at this
     exact this
   | @step _ s' x l h1 hr =>
     obtain ⟨nl, nt⟩ := x
-    rw [h1]
+    rw [(TriScanlines.next_some_iff li s' (nl, nt)).mpr h1]
     refine ⟨_, rfl, ?_⟩
     have := triPix_run style.fillColor style.effectiveStrokeColor hr nl (style.colorOf nt)
     rw [List.flatMap_cons]
@@ -399,7 +415,7 @@ theorem triScanlineRun_total (t : Tri) (style : TriStyle) : ∃ L, triScanlineRu
 
 /-- **`pixels()` of a styled triangle** walks the coloured scanlines of the run point by point —
 provided the model's pixel budget was not used up. -/
-theorem triPixels_eq_run (t : Tri) (style : TriStyle) (bb : Rect)
+theorem triPixels_eq_run (t : Tri) (style : TriStyle) (hf : TriFirstNoneFinal t style) (bb : Rect)
     (hbb : triStyledBoundingBox t style = some bb) (px : Writes) (hpx : triPixels t style = some px)
     (hlt : px.length < 3 * (bb.size.w + 2 * style.strokeWidth + 4) * (bb.size.h + 1) + 2) :
     ∃ L, triScanlineRun t style = some L ∧ (∀ x ∈ L, x.1.isEmpty = false) ∧
@@ -407,7 +423,7 @@ theorem triPixels_eq_run (t : Tri) (style : TriStyle) (bb : Rect)
   obtain ⟨li, hli⟩ := triScanlines_total t style
   obtain ⟨L, hL, hrun, hne⟩ := triLines li
   refine ⟨L, by unfold triScanlineRun; rw [hli]; exact hL, hne, ?_⟩
-  obtain ⟨it, hit, hpix⟩ := triPix_new t style li hli L hrun
+  obtain ⟨it, hit, hpix⟩ := triPix_new t style hf li hli L hrun
   unfold triPixels at hpx
   simp only [hbb, hit, Option.bind_eq_bind, Option.bind_some] at hpx
   rw [triPixels_toListFuel_eq] at hpx
@@ -416,7 +432,7 @@ theorem triPixels_eq_run (t : Tri) (style : TriStyle) (bb : Rect)
 /-- Whatever the budget: the model's `pixels()` of a styled triangle is the first `budget` pixels of
 the coloured scanlines of the run walked point by point (so `TriPixelBudgetOK` fails only by
 truncation). -/
-theorem triPixels_prefix_run (t : Tri) (style : TriStyle) (bb : Rect)
+theorem triPixels_prefix_run (t : Tri) (style : TriStyle) (hf : TriFirstNoneFinal t style) (bb : Rect)
     (hbb : triStyledBoundingBox t style = some bb) :
     ∃ L, triScanlineRun t style = some L ∧
       triPixels t style = some ((L.flatMap (typedPixels style.fillColor style.effectiveStrokeColor)).take
@@ -424,7 +440,7 @@ theorem triPixels_prefix_run (t : Tri) (style : TriStyle) (bb : Rect)
   obtain ⟨li, hli⟩ := triScanlines_total t style
   obtain ⟨L, hL, hrun, -⟩ := triLines li
   refine ⟨L, by unfold triScanlineRun; rw [hli]; exact hL, ?_⟩
-  obtain ⟨it, hit, hpix⟩ := triPix_new t style li hli L hrun
+  obtain ⟨it, hit, hpix⟩ := triPix_new t style hf li hli L hrun
   unfold triPixels
   simp only [hbb, hit, Option.bind_eq_bind, Option.bind_some]
   rw [triPixels_toListFuel_eq, hpix.listFuel_take]
@@ -449,14 +465,14 @@ theorem flatMap_typedPixels_none (L : List (Scanline × PointType)) :
 /-- **Styled triangle, every style: the writes of `draw()` are the pixels of `pixels()`, in the same
 order and with the same colours.** `hlt`: the model's pixel budget was not used up; `hr`: no
 `fill_solid` rectangle saturates `i32`. -/
-theorem tri_writes (t : Tri) (style : TriStyle) (B : Rect) (calls : List (Rect × Nat)) (px : Writes)
+theorem tri_writes (t : Tri) (style : TriStyle) (hf : TriFirstNoneFinal t style) (B : Rect) (calls : List (Rect × Nat)) (px : Writes)
     (hd : triDraw t style = some calls) (hpx : triPixels t style = some px)
     (hlt : ∀ bb, triStyledBoundingBox t style = some bb →
       px.length < 3 * (bb.size.w + 2 * style.strokeWidth + 4) * (bb.size.h + 1) + 2)
     (hr : ∀ rc ∈ calls, rc.1.InRange) :
     (solidCalls calls).flatMap (Call.lowerNative B) = px := by
   obtain ⟨bb, hbb⟩ := triStyledBoundingBox_total t style
-  obtain ⟨L, hL, hne, hpx'⟩ := triPixels_eq_run t style bb hbb px hpx (hlt bb hbb)
+  obtain ⟨L, hL, hne, hpx'⟩ := triPixels_eq_run t style hf bb hbb px hpx (hlt bb hbb)
   rw [triDraw_eq] at hd
   by_cases htr : style.isTransparent = true
   · simp only [htr, ↓reduceIte, Option.some.injEq] at hd
@@ -544,11 +560,11 @@ instance (t : Tri) (style : TriStyle) : Decidable (TriPixelBudgetOK t style) := 
   unfold TriPixelBudgetOK; split <;> exact inferInstance
 
 /-- `tri_writes` with the two guards. -/
-theorem triStyled_writes (t : Tri) (style : TriStyle) (B : Rect)
+theorem triStyled_writes (t : Tri) (style : TriStyle) (hf : TriFirstNoneFinal t style) (B : Rect)
     (hr : TriRectsInRange t style) (hb : TriPixelBudgetOK t style) (calls : List (Rect × Nat)) (px : Writes)
     (hd : triDraw t style = some calls) (hpx : triPixels t style = some px) :
     (solidCalls calls).flatMap (Call.lowerNative B) = px := by
-  apply tri_writes t style B calls px hd hpx
+  apply tri_writes t style hf B calls px hd hpx
   · intro bb hbb
     unfold TriPixelBudgetOK at hb
     rw [hpx, hbb] at hb
@@ -560,7 +576,8 @@ theorem triStyled_writes (t : Tri) (style : TriStyle) (B : Rect)
 /-- `draw()` and `pixels()` visit the same typed scanlines in the same order: one list `L` gives
 both the `fill_solid` calls (coloured scanlines, as rectangles) and the pixels (coloured scanlines,
 point by point). -/
-theorem tri_same_scanlines (t : Tri) (style : TriStyle) (hb : TriPixelBudgetOK t style)
+theorem tri_same_scanlines (t : Tri) (style : TriStyle) (hf : TriFirstNoneFinal t style)
+    (hb : TriPixelBudgetOK t style)
     (calls : List (Rect × Nat)) (px : Writes)
     (hd : triDraw t style = some calls) (hpx : triPixels t style = some px) :
     ∃ L : List (Scanline × PointType), (∀ x ∈ L, x.1.isEmpty = false) ∧
@@ -571,7 +588,7 @@ theorem tri_same_scanlines (t : Tri) (style : TriStyle) (hb : TriPixelBudgetOK t
     unfold TriPixelBudgetOK at hb
     rw [hpx, hbb] at hb
     exact hb
-  obtain ⟨L, hL, hne, hpx'⟩ := triPixels_eq_run t style bb hbb px hpx hlt
+  obtain ⟨L, hL, hne, hpx'⟩ := triPixels_eq_run t style hf bb hbb px hpx hlt
   refine ⟨L, hne, ?_, hpx'⟩
   rw [triDraw_eq] at hd
   unfold triScanlineRun at hL
